@@ -543,6 +543,17 @@ def gen_case(rng, forced=None):
     if forced.get("wired"):
         case["wired"] = forced["wired"]
         case["jax"] = False
+    if case["jax"]:
+        # with the limit check gone a huge out-of-limit entry reaches `(value - mean) ** 2.0` of a Gaussian prior and
+        # raises OverflowError (Python float pow) -- the same finding, but not expressible as a figure of merit: keep
+        # the out-of-limit entries of USE_JAX cases moderate
+        def tame(h):
+            v = unhex(h)
+            return hx(math.copysign(50.0, v)) if v == v and abs(v) > 1e100 else h
+        case["buffers"] = [[tame(x) for x in b] for b in case["buffers"]]
+        for o in ops:
+            if o[0] == "write":
+                o[2] = [tame(x) for x in o[2]]
     if not ps and (fl["like"] or not CTOR_VIA_CALL[0]) and rng.random() < forced.get("ctor_p", 0.2):
         # constructed with the paths of a resumed fit: the stored best vector is a successfully evaluating vector and the
         # stored value is what the constructor compares with (the log likelihood; the figure of merit when the sanity
@@ -711,6 +722,9 @@ def wired_label(c):
 def oracle(c, r, exp, lp):
     """-> list of (message, classes).  Empty list = the implementation satisfies C04 on this case."""
     fails = oracle_values(c, r, exp)
+    if fails and c.get("jax") and jax_arithmetic_escape(c, r, exp):
+        # the unchecked evaluation of an out-of-limit entry blew up inside a prior term (1.0 / 0, huge ** 2.0)
+        return [(m + " [USE_JAX=1, arithmetic error in the log prior of an out-of-limit entry]", [CLS_JAX]) for m, _ in fails]
     if fails and c.get("jax"):
         # the USE_JAX finding: what was observed is exactly the behaviour with the limit checks switched off
         try:
@@ -718,6 +732,18 @@ def oracle(c, r, exp, lp):
                 fails = [(m + " [USE_JAX=1]", [CLS_JAX]) for m, _ in fails]
         except KeyError:
             pass
+    if c.get("wired"):
+        # "works in posterior space" / "minimises chi-squared" are facts about the search, not about its keywords:
+        # MCMC and MLE searches sample / optimise the posterior, nested samplers take the likelihood; scipy's
+        # minimize (bfgs) and pyswarms minimise, everything else maximises
+        f = c["wired"]
+        want_like = not (f.startswith("mcmc/") or f.startswith("mle/"))
+        want_chi2 = f.startswith("mle/bfgs/") or f.startswith("mle/pyswarms/")
+        if (c["flags"]["like"], c["flags"]["chi2"]) != (want_like, want_chi2):
+            fails.append(("%s is wired with fom_is_log_likelihood=%s convert_to_chi_squared=%s but %s and %s its figure of merit"
+                          % (f, c["flags"]["like"], c["flags"]["chi2"],
+                             "takes the likelihood" if want_like else "works in posterior space",
+                             "minimises" if want_chi2 else "maximises"), ["wired-flags:" + f]))
     if c.get("wired") and not r.get("ctor_raised"):
         # the designated resample value must be on the bad side of the direction the search optimises
         for t, (ks, got) in enumerate(zip(exp["op_kinds"], r["out"])):
@@ -734,6 +760,20 @@ def oracle(c, r, exp, lp):
                 continue
             break
     return fails
+
+
+def jax_arithmetic_escape(c, r, exp):
+    """USE_JAX case in which ZeroDivisionError / OverflowError left a call that evaluated an out-of-limit vector
+    (and nothing else escaped anywhere)."""
+    hit = False
+    for ks, got in zip(exp["op_kinds"], r["out"]):
+        for g in got:
+            if "esc" in g:
+                if g["esc"] in ("ZeroDivisionError", "OverflowError") and "limit" in ks:
+                    hit = True
+                elif not (g["esc"] == "AssertionError" and "esc" in ks):
+                    return False
+    return hit
 
 
 def oracle_values(c, r, exp):
@@ -854,12 +894,15 @@ def run(ctx):
         "value) over a generated model (1-5 priors of four families created out of path order, shared priors, constants, nested "
         "collections, assertions on the root or a component), a scripted likelihood of the instance (weighted sum; FitException / "
         "nan rules depending on the instance; float, numpy scalar or 0-d array return) and a sequence of 1-12 operations on caller "
-        "buffers (call, overwrite a buffer in place, pyswarms batch); a fifth of the Fitness cases are constructed "
+        "buffers (call, overwrite a buffer in place, pyswarms batch over rows of one persistent position array, pickle round trip of "
+        "the fitness); buffers are lists, tuples, numpy arrays, some with int entries or one buffer of the wrong length; 6% of the cases "
+        "run with USE_JAX set; every search's own wiring (flags / designated resample value read from its source) is run 3x; one "
+        "300-operation run; a fifth of the Fitness cases are constructed "
         "with the paths of a resumed fit (sanity evaluation of a stored best vector inside the constructor); all eight flag combinations are forced for both "
         "interfaces before the random stream; the reproductions of the recorded findings (corpus/C04) run first; a case is non-trivial when at least one call evaluates successfully; distinct = distinct abstract case")
     ctx.trusted = [
         "Coq 8.16.1 kernel incl. vm_compute; primitive floats (PrimFloat, Uint63) are kernel primitives",
-        "harness/vcheck/pyexpr2coq.py + c04.py:traits regenerating coq/C04/Gen.v (leaf formulas and the five implementation traits) "
+        "harness/vcheck/pyexpr2coq.py + c04.py:traits regenerating coq/C04/Gen.v (leaf formulas, the five implementation traits, the Fitness wiring of every search; fail closed on any other use of the history lists) "
         "from /repo on every run, fail-closed",
         "correspondence harness c04.py / impl/c04_impl.py: abstraction of a composed model into (limits in id order, slots, assertions); "
         "the abstraction is cross-checked against priors_ordered_by_id / prior_count of the live model",
@@ -875,6 +918,18 @@ def run(ctx):
         "the user's likelihood is a function of the instance (deterministic), returning a number or raising FitException; other "
         "exceptions and non-numeric returns are outside the property and outside the model",
         "vectors have the model's length in the no-escape theorem (a vector of another length raises AssertionError, modelled and compared)",
+        "vectors are what searches propose: float sequences (lists, tuples, float64 arrays; ints accepted by the plain Fitness are "
+        "generated). Out of scope, recorded here rather than as findings: FitnessPySwarms single-vector detection "
+        "`isinstance(parameters[0], float)` raises TypeError for an int / float32 first entry (pyswarms and the initializer only pass "
+        "floats / float64) and resample_figure_of_merit=None is not usable with FitnessPySwarms (no search designates None: C04_wiring_*)",
+        "FitnessPySwarms consults no flag and converts the resample value (-2*r): it agrees with the property only for the flags it is "
+        "wired with (C04_pyswarms_matches_fitness; C04_pyswarms_flags_refuted / C04_pyswarms_resample_refuted state the divergence)",
+        "which searches minimise and which work in posterior space is knowledge about the third-party samplers (coq/C04/Wiring.v)",
+        "C04_deterministic presupposes a likelihood that is a function of the instance returning a fresh value; a likelihood that hands "
+        "out one cached mutable array would alias the recorded likelihoods (user-side aliasing, not generated)",
+        "C04_fom / C04_resample / C04_no_escape / C04_success_iff are characterisations of the hand-written control flow of the model "
+        "(one-step unfoldings); what ties that control flow to the code is the correspondence, the content proved beyond unfolding is "
+        "C04_fom_meaning, C04_history*, C04_pyswarms_*, C04_constructor*, C04_wiring_*",
     ]
     try:
         infos = regenerate()
@@ -953,8 +1008,11 @@ def run(ctx):
         for msg, classes in fails:
             ctx.oracle["failures"] += 1
             ctx.failure("oracle", msg, c, classes=classes, impl=r, model={"expected": exp["outs"], "expected_history": exp["hist"]})
-        coq_cases.append(coq_case(c, r))
-        coq_idx.append(i)
+        if c.get("jax") and jax_arithmetic_escape(c, r, exp):
+            ctx.hist("not-in-correspondence", "use-jax arithmetic escape")     # no figure of merit to compare
+        else:
+            coq_cases.append(coq_case(c, r))
+            coq_idx.append(i)
         if i % 61 == 0:
             ctx.sample({"case": c, "observed": {"out": r["out"], "hist_p": r["hist_p"], "hist_l": r["hist_l"]}}, limit=5)
     if os.path.exists(os.path.join(common.COQ, "C04", "Model.vo")):
@@ -974,16 +1032,23 @@ def run(ctx):
 
 
 MANIFEST = {
-    "text": "Coq 8.16 theorems over a model of Fitness.__call__ / FitnessPySwarms.__call__ whose arithmetic leaves and implementation "
-            "traits are regenerated from /repo by a fail-closed translator: figure of merit for all eight flag combinations x all "
-            "outcomes (exact meaning over rationals), resample value and no escaping exception for limit/assertion/FitException/nan, "
-            "determinism, log-prior terms paired with entries in id order, history = successfully evaluated vectors with likelihoods "
-            "in order for every operation sequence, constructor of a resumed fit (full for the repaired traits; refuted + partial for the "
-            "pinned code), plus a "
-            "bit-exact vm_compute correspondence of the model with the running code on generated call sequences with buffer "
-            "mutation, and a direct property oracle on every case",
+    "text": "Coq 8.16 theorems over a model of Fitness.__call__ / FitnessPySwarms.__call__ / Fitness.__init__ whose arithmetic leaves, "
+            "implementation traits and the Fitness wiring of every search are regenerated from /repo by a fail-closed translator: "
+            "figure of merit for all eight flag combinations x all outcomes (exact meaning over rationals), resample value and no "
+            "escaping exception for limit/assertion/FitException/nan (limit case: refuted under USE_JAX, proved without), log-prior "
+            "terms paired with entries in id order, history = successfully evaluated vectors with likelihoods in order for every "
+            "sequence of calls, in-place buffer overwrites, batches and pickle round trips -- stated for the traits of the code as it is "
+            "(proof terms are eq_refl on the regenerated constants, a regression breaks the build) --, constructor of a resumed fit, "
+            "pyswarms against the plain fitness (agreement for the wired flags, divergences stated as refuted), wiring of all searches "
+            "(flags; designated resample value on the bad side of the optimisation direction, refuted for BFGS/LBFGS), plus a "
+            "bit-exact vm_compute correspondence of the model with the running code on generated sequences and a direct property "
+            "oracle on every case",
     "note": "Trusted: Coq kernel + vm_compute, primitive floats, the translator, the harness abstraction of composed models "
-            "(cross-checked against the live model), prior.log_prior_from_value as an oracle table. Not covered: timeout decorator, "
-            "jax jit, non-FitException errors, instance construction below the attribute-slot level (C01).",
-    "technique": "machine-checked proof in Coq (translator-regenerated leaves) + vm_compute correspondence",
+            "(cross-checked against the live model), prior.log_prior_from_value and builtin sum() as oracle tables, which third-party "
+            "samplers minimise / work in posterior space. C04_fom, C04_resample, C04_no_escape, C04_success_iff characterise the "
+            "hand-written control flow of the model (tied to the code by correspondence only). USE_JAX is exercised by setting "
+            "autofit.jax_wrapper.use_jax (jax itself is not installed). Not covered: timeout decorator, jax jit, non-FitException "
+            "errors, non-float vectors for FitnessPySwarms, likelihoods returning a shared mutable array, instance construction "
+            "below the attribute-slot level (C01), compound-prior assertions (C03).",
+    "technique": "machine-checked proof in Coq (translator-regenerated leaves, traits and wiring table) + vm_compute correspondence",
 }
